@@ -52,7 +52,14 @@ func c09Stage(p *Prog, r *Report) {
 				return c.Kind == "cmp" && (c.Op == token.GEQ || c.Op == token.GTR) && stripVersions(c.P).Equal(mkCmp(cellP("GlobalVarsMain.SUM", stage), cellP("GlobalVarsMain.TSUM", stage), token.GEQ, nil).P)
 			})
 			g2 := e.HasGuard(func(c *Cond) bool {
-				return c.Kind == "cmp" && strings.Contains(c.Key(), "NRENTW") && strings.Contains(c.Key(), "INTWICK")
+				if c.Kind != "cmp" {
+					return false
+				}
+				// (stage + 1) < number of stages, in either orientation; nothing weaker
+				P := stripInt(stripVersions(c.P))
+				d := stage.Add(PInt(1)).Sub(cellP("CropSharedVars.NRENTW"))
+				return (P.Equal(d) && c.Op == token.LSS) || (P.Equal(d.Neg()) && c.Op == token.GTR) ||
+					(P.Equal(d.Add(PInt(1))) && c.Op == token.LEQ) || (P.Equal(d.Neg().Sub(PInt(1))) && c.Op == token.GEQ)
 			})
 			r.Ob("advance", p.Pos(e.Pos), g1 && g2, fmt.Sprintf("stage index +1 under (temperature sum of the current stage reached: %v, a next stage exists: %v)", g1, g2))
 			continue
